@@ -95,6 +95,17 @@ def check_e2e(l, ln, u, res):
         got = {co.parse_fp2(t[i + 1]), co.parse_fp2(t[i + 2])}
         if got != want:
             fails.append("%s: pairings of the pushed basis are not e^u and e^(2^n-u) on the two factors" % name)
+    if "evalcmp" in t:
+        i = t.index("evalcmp")
+        names = ["(G,G')", "(K1_4.P1,G)", "(G,K1_4.P2)", "(K2_4.P1,G)", "(K2_4.P1+T2,G)", "(G,K2_4.P2)", "(K1_4.P1,K2_4.P2)"]
+        for nm, fl in zip(names, t[i + 1:i + 8]):
+            if fl[0] != "1":
+                fails.append("evalcmp: theta_chain_eval_no_help != theta_chain_eval on the point %s" % nm)
+            if fl[1] != "1":
+                fails.append("evalcmp: [4]F(P) != F([4]P) for the point %s" % nm)
+        kz = t[i + 8]
+        if kz != "11":
+            fails.append("evalcmp: theta_chain_eval_no_help does not send the kernel points K2_4 / K1_4 to (0,0) (flags %s)" % kz)
     return fails
 
 
@@ -196,6 +207,26 @@ def sv_stage(ctx, l, v2s, nmsg):
     ctx.obligation("sign/verify chains L%d (%d runs)" % (l, len(ops)), bad == 0, "%d failing" % bad)
 
 
+def skeleton_stage(ctx, l, rows):
+    """tie T: integer skeletons of both strategy routines re-extracted from the C text vs the hand model, executed on
+    every table row in both modes (8-torsion above: n = f - row; else n = f - row + 2)"""
+    f = LV[l]["f"]
+    ops = []
+    for r in range(rows):
+        for w in (0, 1):
+            ops.append("skel.theta %x %x %x 1 %x" % (l, r, f - r, w))
+            ops.append("skel.theta %x %x %x 0 %x" % (l, r, f - r + 2, w))
+    ops += ["skel.theta %x 0 3 0 0" % l, "skel.theta %x 0 1 1 1" % l, "skel.theta %x 5 %x 1 0" % (l, f)]   # degenerate / mismatched: faults on both sides
+    outs = ctx.driver(ops)
+    bad = [(o_, r_) for o_, r_ in zip(ops, outs) if not r_.startswith("1 ")]
+    ctx.evaluations += len(ops)
+    ctx.obligation("integer skeletons (SqiGen.ChainSkel) = hand model on every strategies row, both routines, both modes L%d (%d runs)" % (l, len(ops)),
+                   not bad, str(bad[:1])[:500])
+    for o_, r_ in bad[:1]:
+        ctx.violation("skeleton:L%d:%s" % (l, " ".join(o_.split()[2:])), "the integer skeleton re-extracted from the theta chain routine no longer matches the model of the theorems",
+                      dict(level=l, op=o_, comparison=r_[:1500], how="lean driver op; real code: theta.trace with the same row/n/mode on the sanitizer build"), found=False)
+
+
 def search(ctx):
     ctx.lake(["driver"])
     try:
@@ -278,6 +309,7 @@ def run(ctx):
             rs = sorted({0, 1, 2, 3, rows - 1, rows - 2} | {rng.below(rows) for _ in range(8)})
         else:
             rs = list(range(rows))
+        skeleton_stage(ctx, l, rows)
         for d in trace_stage(ctx, l, exe, rs)[:3]:
             classify(ctx, l, exe, d)
         lo = minlen(l)
